@@ -248,7 +248,7 @@ Fixpoint decompress_projs (Ps : list (mat F)) (Ls : list (option (mat F))) : lis
   end.
 Definition svd_decompress (w : list F) (A B C : mat F) (Ps : list (mat F)) (Ls : list (option (mat F)))
   : res (list F * list (mat F) * list (mat F)) :=
-  if Nat.eqb (length Ps) (length Ls) then Ok (w, [A; B; C], decompress_projs Ps Ls) else Err.
+  if length Ps <=? length Ls then Ok (w, [A; B; C], decompress_projs Ps Ls) else Err.   (* loading_matrices[i]: IndexError when too few, surplus entries unused *)
 
 (* svd_compress_tensor_slices, one slice; (U, s, Vh) is the recorded answer of svd_interface(n_eigenvecs = rank_limit)
    num_svds = #{ s_i >= s_0 * threshold };  score = diag(s[:num]) Vh[:num],  loading = U[:, :num] *)
@@ -273,21 +273,49 @@ End M2.
 Section M3.
 Context {F : Type} (Op : fops F).
 (* ------------------------------------------------------------------ the input forms of the CP entry points
-   A CP tensor reaches cp_mode_dot / cp_flip_sign either as a CPTensor object (weights None already replaced by ones
-   by the constructor) or as a plain (weights, factors) tuple, whose weights may be None.  On the repaired tree
-   (/repo 98aff0c, 85a028b) every form is accepted: None weights count as ones (cp_flip_sign substitutes them, the
-   CPTensor constructor does so for the result of cp_mode_dot), a tuple operand gets a fresh CPTensor as result, and
-   copy only decides whether the operand's arrays are reused.  is_class / copy stay arguments of the model so that the
-   correspondence keeps exercising every form. *)
+   A CP tensor reaches cp_mode_dot / cp_flip_sign either as a CPTensor object or as a plain (weights, factors) tuple whose
+   weights may be None.  A CPTensor object caches its shape and never holds None weights (its validating constructor
+   substitutes ones).  Repaired tree (/repo 98aff0c, 85a028b):
+     _validate_cp_tensor(operand): an object answers from its cache, a tuple is validated;
+     cp_mode_dot: copy=True or a tuple operand -> a fresh CPTensor((weights, factors)) (validated, None -> ones);
+                  copy=False on an object    -> the same object, factors updated, `shape` attribute recomputed;
+     cp_flip_sign: None weights -> ones, always a fresh CPTensor. *)
+Record cp_obj := mk_cpobj { cpo_shape : list nat; cpo_w : list F; cpo_fs : list (mat F) }.
+Inductive cp_operand := CpTuple (w : option (list F)) (fs : list (mat F)) | CpObject (o : cp_obj).
 Definition cp_rank (fs : list (mat F)) : nat := ncols (hd [] fs).
 Definition weights_or_ones (w : option (list F)) (fs : list (mat F)) : list F :=
   match w with Some w0 => w0 | None => ones Op (cp_rank fs) end.
-Definition cp_mode_dot_api (is_class copy : bool) (w : option (list F)) (fs : list (mat F)) (x : operand)
-  (mode : nat) (keep_dim : bool) : res (list F * list (mat F)) :=
-  cp_mode_dot Op (weights_or_ones w fs) fs x mode keep_dim.
-Definition cp_flip_sign_api (is_class : bool) (summ : list F -> F) (w : option (list F)) (fs : list (mat F)) (mode : nat)
-  : res (list F * list (mat F)) :=
-  cp_flip_sign Op summ (weights_or_ones w fs) fs mode.
+(* _validate_cp_tensor on raw contents: at least one factor, every factor a non-empty matrix with `rank` columns, len(weights) = rank *)
+Definition cp_validb (w : option (list F)) (fs : list (mat F)) : bool :=
+  negb (Nat.eqb (length fs) 0) &&
+  forallb (fun A => negb (Nat.eqb (length A) 0) && rectb (cp_rank fs) A) fs &&
+  match w with Some w0 => Nat.eqb (length w0) (cp_rank fs) | None => true end.
+Definition cp_new (w : option (list F)) (fs : list (mat F)) : res cp_obj :=
+  if cp_validb w fs then Ok (mk_cpobj (cp_shape fs) (weights_or_ones w fs) fs) else Err.
+Definition operand_w (x : cp_operand) : list F :=
+  match x with CpTuple w fs => weights_or_ones w fs | CpObject o => cpo_w o end.
+Definition operand_fs (x : cp_operand) : list (mat F) :=
+  match x with CpTuple _ fs => fs | CpObject o => cpo_fs o end.
+Definition operand_okb (x : cp_operand) : bool :=
+  match x with CpTuple w fs => cp_validb w fs | CpObject _ => true end.
+Definition cp_mode_dot_api (x : cp_operand) (copy : bool) (opd : operand) (mode : nat) (keep_dim : bool) : res cp_obj :=
+  if operand_okb x then
+    match cp_mode_dot Op (operand_w x) (operand_fs x) opd mode keep_dim with
+    | Err => Err
+    | Ok (w', fs') =>
+        match x with
+        | CpObject _ => if copy then cp_new (Some w') fs' else Ok (mk_cpobj (cp_shape fs') w' fs')
+        | CpTuple _ _ => cp_new (Some w') fs'
+        end
+    end
+  else Err.
+Definition cp_flip_sign_api (x : cp_operand) (summ : list F -> F) (mode : nat) : res cp_obj :=
+  if operand_okb x then
+    match cp_flip_sign Op summ (operand_w x) (operand_fs x) mode with
+    | Err => Err
+    | Ok (w', fs') => cp_new (Some w') fs'
+    end
+  else Err.
 End M3.
 
 (* ================================================================== round 3: list form of cp_permute_factors, orthonormality,
